@@ -340,9 +340,17 @@ func runInbound(sc C02Script, b *built) *inResult {
 		if tc, ok := conn.UnderlyingConn().(*tls.Conn); ok {
 			res.Version = tc.ConnectionState().Version
 		}
+		// a conformant client: send the init message, wait for the hub's init, then send the hello
+		// (the hub may end the handshake if a hello overtakes its own start-up)
 		_ = conn.WriteMessage(websocket.BinaryMessage, []byte{0, 0})
-		_ = conn.WriteMessage(websocket.BinaryMessage, append([]byte{1}, `{"connectionHello":[{"phase":"ready"},{"waiting":60000}]}`...))
-		_ = conn.SetReadDeadline(time.Now().Add(400 * time.Millisecond))
+		// a refusal is "no SHIP byte within 400 ms"; where acceptance is expected the
+		// first frame normally arrives within milliseconds, and on a loaded machine the
+		// client waits up to 10 s for it rather than misjudging a slow hub as a refusal
+		wait := 400 * time.Millisecond
+		if expectAccept(sc, b) {
+			wait = 10 * time.Second
+		}
+		_ = conn.SetReadDeadline(time.Now().Add(wait))
 		for {
 			typ, _, err := conn.ReadMessage()
 			if err != nil {
@@ -350,6 +358,9 @@ func runInbound(sc C02Script, b *built) *inResult {
 			}
 			if typ == websocket.BinaryMessage {
 				res.Frames++
+				if res.Frames == 1 {
+					_ = conn.WriteMessage(websocket.BinaryMessage, append([]byte{1}, `{"connectionHello":[{"phase":"ready"},{"waiting":60000}]}`...))
+				}
 				if res.Frames >= 2 {
 					break
 				}
@@ -361,6 +372,17 @@ func runInbound(sc C02Script, b *built) *inResult {
 	all := th.app.snapshot()
 	res.NewSkis = all[before:]
 	return res
+}
+
+// expectAccept: a certificate whose SKI is bound to its key, TLS >= 1.2 and the ship sub-protocol offered.
+func expectAccept(sc C02Script, b *built) bool {
+	ship := false
+	for _, p := range sc.Protos {
+		if p == "ship" {
+			ship = true
+		}
+	}
+	return b.cert != nil && b.bound && sc.TLSMax >= tls.VersionTLS12 && ship
 }
 
 func judgeInbound(sc C02Script) (key, msg string) {
